@@ -611,6 +611,22 @@ func (m *mrun) prepareSort(op Op) {
 		m.guard(func() { r.ToObject(m.R) }) // 15.4.4.11 step 1: TypeError, fully defined
 		return
 	}
+	if m.R.K == refarr.KNum || m.R.K == refarr.KBool {
+		// ToObject gives a wrapper without length: nothing to sort, fully defined;
+		// step "return obj" yields the wrapper object
+		m.guard(func() {
+			O := r.ToObject(m.R)
+			if r.Get(O, "length").K != refarr.KUndef {
+				panic(refarr.Unsupported{Why: "wrapper prototype with length"})
+			}
+			ret := refarr.ObjV(O)
+			if r.Dev&refarr.DevReturnsThisValue != 0 {
+				ret = m.R
+			}
+			m.out("ret", m.dumpVal(ret, 0))
+		})
+		return
+	}
 	m.sortAt = len(m.events)
 	m.sortOK = true
 	m.sortOnlyIncons = false
